@@ -105,6 +105,7 @@ type simSpace struct {
 	rcvLargest  int64
 	sinceAck    int
 	ackTimerSet bool
+	fresh       []int64 // received since the last ACK frame was sent
 }
 
 type bbrSim struct {
@@ -152,6 +153,7 @@ type bbrSim struct {
 	mtuPending int64
 	appWaiting bool
 	ptoGen     int64
+	fat        bool
 	quicSize   int64 // the size of full packets QUIC sends (>= the controller's datagram size)
 	byAddr     int64
 }
@@ -269,10 +271,20 @@ func (s *bbrSim) sendAck(sp int) {
 	if s.ackLossP > 0 && s.r.Intn(10000) < s.ackLossP {
 		return
 	}
-	a := &simAck{space: sp, largest: ss.rcvLargest, pns: make(map[int64]bool, len(ss.rcvd))}
-	for pn := range ss.rcvd {
-		a.pns[pn] = true
+	var a *simAck
+	if s.ackLossP == 0 {
+		// ACK frames are never lost: reporting every packet once is equivalent to QUIC's cumulative ranges
+		a = &simAck{space: sp, largest: ss.rcvLargest, pns: make(map[int64]bool, len(ss.fresh))}
+		for _, pn := range ss.fresh {
+			a.pns[pn] = true
+		}
+	} else {
+		a = &simAck{space: sp, largest: ss.rcvLargest, pns: make(map[int64]bool, len(ss.rcvd))}
+		for pn := range ss.rcvd {
+			a.pns[pn] = true
+		}
 	}
+	ss.fresh = ss.fresh[:0]
 	t := s.now + s.rttNs/2
 	if s.aggNs > 0 {
 		t = (t/s.aggNs + 1) * s.aggNs
@@ -304,13 +316,12 @@ func (s *bbrSim) detectLost(sp int) []*simPkt {
 	delay := s.lossDelay()
 	lostBefore := s.now - delay
 	var lost []*simPkt
-	keep := ss.outstanding[:0]
+	var keep []*simPkt
 	var nextTimer int64
-	for _, p := range ss.outstanding {
-		if p.pn > ss.largestAcked {
-			keep = append(keep, p)
-			continue
-		}
+	out := ss.outstanding
+	i := 0
+	for ; i < len(out) && out[i].pn <= ss.largestAcked; i++ {
+		p := out[i]
 		if p.sendTime <= lostBefore || ss.largestAcked-p.pn >= 3 {
 			lost = append(lost, p)
 			continue
@@ -320,7 +331,8 @@ func (s *bbrSim) detectLost(sp int) []*simPkt {
 		}
 		keep = append(keep, p)
 	}
-	ss.outstanding = keep
+	copy(out[i-len(keep):i], keep)
+	ss.outstanding = out[i-len(keep):]
 	if nextTimer != 0 {
 		s.push(nextTimer, evLossTimer, &simEv{n: int64(sp)})
 	}
@@ -346,8 +358,12 @@ func (s *bbrSim) onAck(a *simAck) {
 		return
 	}
 	var acked []*simPkt
-	keep := ss.outstanding[:0]
-	for _, p := range ss.outstanding {
+	// only the prefix up to the largest acknowledged number can be affected
+	out := ss.outstanding
+	var keep []*simPkt
+	i := 0
+	for ; i < len(out) && out[i].pn <= a.largest; i++ {
+		p := out[i]
 		if a.pns[p.pn] {
 			acked = append(acked, p)
 			delete(ss.rcvd, p.pn) // ack of ack: the receiver stops reporting it
@@ -355,7 +371,8 @@ func (s *bbrSim) onAck(a *simAck) {
 			keep = append(keep, p)
 		}
 	}
-	ss.outstanding = keep
+	copy(out[i-len(keep):i], keep)
+	ss.outstanding = out[i-len(keep):]
 	if len(acked) == 0 {
 		return
 	}
@@ -555,7 +572,7 @@ func (s *bbrSim) run(budget int) {
 	s.c.rtt = &vRTT{}
 	s.now = int64(r.Range(1, 1000)) * 1000000
 	if !late {
-		if r.Chance(1, 3) && !s.clean {
+		if (r.Chance(1, 3) && !s.clean) || s.fat {
 			s.cur = 2 // server-side / resumed: only the 1-RTT space is seen
 		}
 		install(0)
@@ -599,6 +616,7 @@ func (s *bbrSim) run(budget int) {
 		case evPktArrive:
 			ss := s.spaces[e.pkt.space]
 			ss.rcvd[e.pkt.pn] = true
+			ss.fresh = append(ss.fresh, e.pkt.pn)
 			if e.pkt.pn > ss.rcvLargest {
 				ss.rcvLargest = e.pkt.pn
 			}
@@ -674,7 +692,9 @@ func (s *bbrSim) run(budget int) {
 			idleGuard = 0
 		}
 	}
-	if s.clean && s.deliveredFrom >= 0 && s.now > s.deliveredFrom {
+	if s.fat {
+		s.op(fmt.Sprintf("note fat-path profile=%s cwnd=%d max=%d", s.prof, int64(s.c.b.GetCongestionWindow()), int64(s.c.b.maxCongestionWindow)), "fat-trace")
+	} else if s.clean && s.deliveredFrom >= 0 && s.now > s.deliveredFrom {
 		util := float64(s.delivered) / (float64(s.now-s.deliveredFrom) / 1e9 * s.capBps)
 		bucket := int(util * 10)
 		if bucket > 10 {
@@ -724,7 +744,18 @@ func (c *verifBbr) Gen(r *vh.RNG, n int, emit func(op string, tags ...string)) {
 		if clean {
 			per = min(3*per, max(n-done, 50)) // clean fixed-capacity paths run longer (utilisation after start-up)
 		}
+		// one long fat loss-free path per 100 traces: start-up drives the window up to the 20000-packet cap
+		fat := k == 20 && n-done >= 90000
+		if fat {
+			clean, per = true, 90000
+			prof = profs[r.Intn(3)]
+		}
 		s := newSim(r.Fork(), c, emit, prof, clean)
+		if fat {
+			s.fat = true
+			s.capBps, s.rttNs, s.ackEvery = 600e6, 300e6, 10
+			s.queueBytes = 8 * s.capBps * float64(s.rttNs) / 1e9
+		}
 		s.run(per)
 		done += s.ops
 		if s.ops == 0 {
